@@ -593,7 +593,8 @@ pub fn run(ctx: &Ctx) -> Report {
     // whole trees against their neutral twins: requests that a concatenated key would confuse,
     // interaction triples, and random trees whose strings come from the dictionary and the pools
     let tree_json = |t: &E| json!({"kind": "tree", "tree": term::encode_expr(t)});
-    let twins = crate::combo::concat_twin_trees();
+    let mut twins = crate::combo::concat_twin_trees();
+    twins.extend(crate::combo::escape_twin_trees());
     let tw = run_shards(16, |shard| {
         let mut st = Stats::new();
         for (i, t) in twins.iter().enumerate().filter(|(i, _)| i % 16 == shard) {
